@@ -31,7 +31,7 @@ import (
 type CatAsset struct {
 	ID      int    `json:"id"`
 	Name    string `json:"name"`
-	Kind    string `json:"kind"` // raw | tar.gz | zip | checksums | other
+	Kind    string `json:"kind"`              // raw | tar.gz | zip | checksums | other
 	Payload string `json:"payload,omitempty"` // bytes of the executable inside (unique per asset)
 	Corrupt bool   `json:"corrupt,omitempty"` // archive bytes are garbage
 	// Checksums (kind = checksums): what the file records
@@ -49,13 +49,13 @@ type CatRelease struct {
 }
 
 type C20Params struct {
-	Running  string           `json:"running_version"`
-	Releases []CatRelease     `json:"releases"`
+	Running  string       `json:"running_version"`
+	Releases []CatRelease `json:"releases"`
 	// Withdrawn: tags of releases that disappear from the listing after its first request (a release pulled between two requests of one run)
-	Withdrawn []string `json:"withdrawn,omitempty"`
-	Faults   []simrt.NetFault `json:"faults,omitempty"`
-	Token    bool             `json:"github_token"`
-	Plan     simrt.Plan       `json:"plan"`
+	Withdrawn []string         `json:"withdrawn,omitempty"`
+	Faults    []simrt.NetFault `json:"faults,omitempty"`
+	Token     bool             `json:"github_token"`
+	Plan      simrt.Plan       `json:"plan"`
 }
 
 var platSuffix = runtime.GOOS + "_" + runtime.GOARCH
@@ -184,7 +184,7 @@ func renderCatalogue(rels []CatRelease) (routes []simrt.Route, served map[int][]
 	}
 	listing, _ := json.Marshal(out)
 	routes = append(routes, simrt.Route{URL: "https://api.github.com/repos/coreruleset/crs-toolchain/releases", Status: 200,
-		Header: map[string]string{"Content-Type": "application/json; charset=utf-8", "X-RateLimit-Limit": "60", "X-RateLimit-Remaining": "59"},
+		Header:  map[string]string{"Content-Type": "application/json; charset=utf-8", "X-RateLimit-Limit": "60", "X-RateLimit-Remaining": "59"},
 		BodyB64: base64.StdEncoding.EncodeToString(listing)})
 	return
 }
